@@ -53,6 +53,8 @@ class Layout:
         return path if d == '' else path[len(d) + 1:]
 
     def add_file_entry(self, mp, path, data, tag='DATA', hashes=('SHA256',)):
+        if tag == 'AUX' and not self.rel(path, mp).startswith('files/'):
+            tag = 'DATA'        # AUX can only name paths under files/ next to its Manifest
         e = fm.make_entry(tag, self.rel(path, mp), data, hashes)
         self.mf[mp].append(e)
         return e
